@@ -122,3 +122,22 @@ Theorem C13_exec_update_refines_alg :
     absS n st' = A.update exp eighA (@argsortA_of R exp ln n) (absP mu P) (absS n st) (absPop n pop).
 Proof. exact: exec_update_refines_alg. Qed.
 Print Assumptions C13_exec_update_refines_alg.
+
+(* transfer (example of use): one update of the EXECUTABLE model keeps the strategy consistent *)
+Theorem C13_exec_update_consistent :
+  forall (R : rcfType) (exp ln : R -> R) (n mu : nat)
+         (eighL : seq (seq R) -> seq R * seq (seq R)) (eighA : 'M_n -> 'rV_n * 'M_n)
+         (P : E.params) (st : E.state) (pop : seq (seq R * seq R)),
+    (forall C : seq (seq R), mshape n n C ->
+       [/\ size (eighL C).1 = n, mshape n n (eighL C).2
+         & eighA (mxL n n C) = (rvL n (eighL C).1, mxL n n (eighL C).2)]) ->
+    wfP n mu P -> wfS n st ->
+    (mu <= size pop)%N -> all (fun p : seq R * seq R => size p.2 == n) pop ->
+    (forall x, 0 < exp x) -> AP.rates_ok (absP mu P) ->
+    A.p_ccov1 (absP mu P) + A.p_ccovmu (absP mu P) <= 1 ->
+    AP.psd (A.s_C (absS n st)) -> AP.consistent (absS n st) ->
+    (forall C : 'M[R]_n, C^T = C -> AP.psd C -> AP.eigh_ok eighA C) ->
+    let st' := E.update (RNum exp ln) eighL P st pop in
+    AP.consistent (absS n st') /\ AP.psd (A.s_C (absS n st')).
+Proof. exact: exec_update_consistent. Qed.
+Print Assumptions C13_exec_update_consistent.
